@@ -62,6 +62,11 @@ func runC04(c *ev.Ctx) {
 		}
 		add(c04Case{Kind: "synth", P: p, Sub: i})
 	}
+	// coefficients far beyond what an encoder produces (legal syntax): second-level (Y2) sums and IDCT inputs that
+	// leave the 16-bit range. libwebp stays the reference for what such a stream decodes to.
+	for i := 0; i < c.N(1500, 150000); i++ {
+		add(c04Case{Kind: "synth", P: vp8.Params{MaxSide: 48, CoeffScale: []float64{8, 20, 40}[i%3]}, Sub: 5000000 + i})
+	}
 	nb := c.N(200, 40000)
 	for i := 0; i < nb; i++ {
 		p := vp8.Params{MaxSide: 160}
